@@ -1016,6 +1016,7 @@ structure Prep where
   post : Prog2
   aP : List Nat
   aQ : List Nat
+  r2m : Nat := 0
 
 def prepare (ts : List String) : Except String Prep :=
   match ts with
@@ -1068,7 +1069,15 @@ def prepare (ts : List String) : Except String Prep :=
           | some pv, some pl => .ok (some (pv, pl))
           | _, _ => .error s!"unsupported argument {s}"
         | _ => .error "args"
-      return { c, pre, post, aP := argPairs.map (·.1), aQ := argPairs.map (·.2) }
+      -- register operands of user instructions that the allocator replaced by the home slot
+      let r2m := postN.foldl (fun n nd =>
+        if nd.kind != 'I' || nd.tag == 0 then n else
+        match twinOf nd.tag with
+        | none => n
+        | some t => n + ((nd.ops.zip t.ops).filter fun (o, tw) => match o, tw with
+            | .mem _ _ mb mi md _, .reg .. => mi == "-" && (slotLoc c mb md).isSome
+            | _, _ => false).length) 0
+      return { c, pre, post, aP := argPairs.map (·.1), aQ := argPairs.map (·.2), r2m }
   | _ => .error "unsupported malformed dump"
 
 def oneLine (s : String) : String := String.ofList (s.toList.map fun ch => if ch == '\n' then ' ' else ch)
@@ -1122,7 +1131,14 @@ def process (line : String) : String :=
       let ins := post.tags.foldl (fun n t => if t == 0 then n + 1 else n) 0
       let del := (pre.tags.toList.filter fun t => t < 10000000 && !post.tags.contains t).length
       if validate c.vsz pre.insts post.insts aP aQ cert then
-        return s!"valid pre={pre.insts.size} post={post.insts.size} pairs={pairs} ins={ins} del={del}"
+        -- what the allocator did (for the evidence): inserted saves / reloads / register moves / swaps / jumps, register-to-memory substitutions
+        let cnt (f : Inst → Bool) : Nat := (List.range post.insts.size).foldl (fun n i => if post.tags.getD i 0 == 0 && f (post.insts.getD i default) then n + 1 else n) 0
+        let spills := cnt fun i => match i with | .move d s _ => d ≥ slotBase && s < slotBase | _ => false
+        let reloads := cnt fun i => match i with | .move d s _ => s ≥ slotBase && d < slotBase | _ => false
+        let moves := cnt fun i => match i with | .move d s _ => s < slotBase && d < slotBase | _ => false
+        let swaps := cnt fun i => match i with | .swap .. => true | _ => false
+        let jumps := cnt fun i => match i with | .jmp _ => true | _ => false
+        return s!"valid pre={pre.insts.size} post={post.insts.size} pairs={pairs} ins={ins} del={del} spill={spills} reload={reloads} move={moves} swap={swaps} jump={jumps} r2m={pr.r2m}"
       else
         -- locate the first entry that fails
         let bad := (List.range cert.size).findSome? fun q =>
